@@ -137,6 +137,34 @@ Theorem C20_errors_joined : forall pfx pfs (s s' : store V) frs rq,
   (reported frs = [] <-> forall pf, In pf pfs -> fails V D jdec unm_ok ans s pfx pf = false).
 Proof. exact (errors_joined V D jdec unm_ok ans now_s). Qed.
 
+(* Secrets() is a pure function of the struct declaration and the prefix, and the name Apply uses for
+   field i is a function of field i alone:
+   (1) every result carries full_name prefix of ITS OWN field (and that field's location), whatever the
+       other fields, the store, or earlier calls of Secrets() were;
+   (2) the usage pattern  f := ParseFields(&v, pfx); NewStore{Secrets: f.Secrets() ++ extra}; f.Apply
+       gives exactly what NewStore with the struct configured gives, the second Secrets() returns the
+       same names in the same order, and all of it is invariant under ANY treatment scr of the list the
+       first Secrets() handed out (NewStore sorts and compacts it in place; a caller may reverse or
+       overwrite it).  In the model (2) is immediate - a list is a value, scr's result cannot reach the
+       parsed fields - and is stated so that the aliasing question is visible: that the Go object does
+       not share that slice is checked by the correspondence run (mode "decl"), as buffer identities
+       are for []byte fields. *)
+Theorem C20_secrets_pure :
+  (forall pfx pfs (s s' : store V) frs rq,
+     Inv s -> apply jdec unm_ok ans now_s pfx s pfs = (s', frs, rq) ->
+     Forall2 (fun pf (r : fres V D) => rname r = full_name pfx pf /\ rloc r = ploc pf) pfs frs) /\
+  (forall allow_lookup extra scr a pfx,
+     fst (declare_apply jdec unm_ok ans now_s allow_lookup extra scr a pfx)
+       = new_store jdec unm_ok ans now_s allow_lookup extra a pfx /\
+     (forall pfs, parse_fields a = inr pfs ->
+        snd (declare_apply jdec unm_ok ans now_s allow_lookup extra scr a pfx) = secrets_of pfx pfs) /\
+     (forall scr', declare_apply jdec unm_ok ans now_s allow_lookup extra scr a pfx
+                   = declare_apply jdec unm_ok ans now_s allow_lookup extra scr' a pfx)).
+Proof.
+  split; [exact (apply_names_pointwise V D jdec unm_ok ans now_s)|].
+  exact (declare_apply_is_new_store V D jdec unm_ok ans now_s).
+Qed.
+
 End C20.
 
 Print Assumptions C20_join_clean.
@@ -147,6 +175,7 @@ Print Assumptions C20_untagged_untouched.
 Print Assumptions C20_bytes_private.
 Print Assumptions C20_reject_upfront.
 Print Assumptions C20_errors_joined.
+Print Assumptions C20_secrets_pure.
 
 (* ---- non-vacuity: a concrete struct, store and service *)
 Open Scope N_scope.
@@ -224,4 +253,23 @@ Proof. vm_compute. repeat split; reflexivity. Qed.
 
 Example ex_join : path_join2 [x61; x2f; x2f; x62; x2f] [x2e; x2e; x2f; x63] = [x61; x2f; x63]   (* "a//b/" + "../c" = "a/c" *)
   /\ clean [x61; x2f; x62] = true /\ clean [x61; x2f; x2f; x62] = false /\ clean [] = false /\ clean [x2e; x2e] = false.
+Proof. vm_compute. repeat split; reflexivity. Qed.
+
+(* declare via Secrets(), tag names NOT in sorted order and one name used by two fields: the names come
+   back in field order, twice; sorting, reversing or overwriting the first list changes nothing; the
+   store is asked for each distinct name once and Apply for nothing more; each field gets ITS name *)
+Definition ex_unsorted : list item :=
+  [IF (F 1 (Some [x7a]) TString); IF (F 2 (Some [x61]) TBytes); IF (F 3 (Some [x6d]) THandle); IF (F 4 (Some [x7a]) TString)].
+Example ex_declare_unsorted :
+  let svc := fun n : name => Some (1, N.of_nat (length n) * 1000 + hd 0 (rev n)) in
+  let run scr := declare_apply ex_jdec ex_unm svc 5%Z false [] scr (AStructPtr ex_unsorted) ex_pfx in
+  snd (run (fun l => l)) = [ex_n x7a; ex_n x61; ex_n x6d; ex_n x7a]
+  /\ run (fun l => l) = run (@rev name) /\ run (fun l => l) = run (map (fun _ => [x78]))
+  /\ match fst (run (fun _ => [])) with
+     | NSDone init_rq _ frs rq =>
+         init_rq = [ex_n x61; ex_n x6d; ex_n x7a] /\ rq = []
+         /\ map (fun r => (rloc r, rname r)) frs = [((0,0), ex_n x7a); ((1,0), ex_n x61); ((2,0), ex_n x6d); ((3,0), ex_n x7a)]
+         /\ map (@rcontent N N) frs = [CString (3000 + x7a); CBytes (BFresh 0) (3000 + x61); CHandle (ex_n x6d); CString (3000 + x7a)]
+     | _ => False
+     end.
 Proof. vm_compute. repeat split; reflexivity. Qed.
